@@ -615,4 +615,94 @@ theorem tr_combine (n : Nat) (g : Env) (H : Heap) (bsss : List GV) (hall : ∀ x
     simp [combineG]
 
 
+/-! ## `copyBindingss` -/
+
+theorem find_copyBindingss : findFn matchProg "copyBindingss" = some matchProg_copyBindingss := by rfl
+
+/-- what `Bindings.Copy` makes of a map object -/
+def copyObj (o : MapObj) : MapObj :=
+  { ty := "Bindings", kvs := o.kvs.foldl (fun acc kv => minsert kv.1 kv.2 acc) [] }
+
+theorem heapGet_append {H : Heap} {a : Nat} {o : MapObj} (extra : Heap) (h : heapGet H a = some o) :
+    heapGet (H ++ extra) a = some o := by
+  unfold heapGet at *
+  have hl : a < H.length := by
+    rcases Nat.lt_or_ge a H.length with h1 | h1
+    · exact h1
+    · simp [List.getElem?_eq_none h1] at h
+  rw [List.getElem?_append_left hl]; exact h
+
+def cbBody : List GS :=
+  [GS.assign false [GL.var "acc"] [GE.call "append" [GE.var "acc", GE.mcall (GE.var "bs") ".Copy" []]]]
+
+theorem cb_shape : matchProg_copyBindingss.body =
+    [GS.assign true [GL.var "acc"] [GE.call "makeslice" [GE.lit (GV.str "[]Bindings"), GE.lit (GV.int 0)]],
+     GS.range "" "_" "bs" (GE.var "bss") cbBody,
+     GS.ret [GE.var "acc"]] := by rfl
+
+/-- the new addresses: `H.length`, `H.length + 1`, … -/
+def freshRefs (base k : Nat) : List GV := (List.range k).map (fun i => GV.ref (base + i))
+
+theorem freshRefs_succ (base k : Nat) : freshRefs base (k + 1) = GV.ref base :: freshRefs (base + 1) k := by
+  unfold freshRefs
+  rw [List.range_succ_eq_map]
+  simp [List.map_map, Function.comp_def, Nat.add_assoc, Nat.add_comm 1]
+
+theorem cb_loop (g : Env) (x0 : GV) : ∀ (objs : List (Nat × MapObj)) (items : List (GV × GV)) (n K : Nat) (H : Heap) (acc : List GV),
+    items.map (·.2) = objs.map (fun p => GV.ref p.1) →
+    (∀ p ∈ objs, heapGet H p.1 = some p.2) → (∀ p ∈ objs, p.2.kvs.length ≤ K) →
+    loopR (n + items.length + K + 40) matchProg g [("acc", .slice acc), ("bss", x0)] H "" "_" "bs" items cbBody
+      = .ok (.next, [("acc", .slice (acc ++ freshRefs H.length objs.length)), ("bss", x0)], H ++ objs.map (fun p => copyObj p.2)) := by
+  intro objs
+  induction objs with
+  | nil =>
+    intro items n K H acc hi _ _
+    have : items = [] := by simpa using hi
+    subst this
+    simp [loopR, freshRefs]
+  | cons p objs ih =>
+    intro items n K H acc hi hget hK
+    obtain ⟨a, o⟩ := p
+    match items, hi with
+    | (ik, iv) :: items', hi =>
+      simp only [List.map_cons, List.cons.injEq] at hi
+      obtain ⟨hiv, hrest⟩ := hi
+      subst hiv
+      have ho : heapGet H a = some o := hget (a, o) (by simp)
+      have hKo : o.kvs.length ≤ K := hK (a, o) (by simp)
+      have hget' : ∀ p ∈ objs, heapGet (H ++ [copyObj o]) p.1 = some p.2 :=
+        fun p hp => heapGet_append _ (hget p (by simp [hp]))
+      have hK' : ∀ p ∈ objs, p.2.kvs.length ≤ K := fun p hp => hK p (by simp [hp])
+      have hi' := ih items' n K (H ++ [copyObj o]) (acc ++ [GV.ref H.length]) hrest hget' hK'
+      simp [-callFn, loopR, cbBody]
+      rw [show n + (items'.length + 1) + K + 31 = (n + items'.length + (K - o.kvs.length) + 12) + o.kvs.length + 20 by omega,
+        tr_Copy _ g H a o ho]
+      simp [-callFn, sliceElems]
+      rw [show n + (items'.length + 1) + K + 39 = n + items'.length + K + 40 by omega]
+      have hc : ({ ty := "Bindings", kvs := List.foldl (fun acc kv => minsert kv.fst kv.snd acc) [] o.kvs } : MapObj) = copyObj o := rfl
+      rw [hc]
+      simp only [cbBody] at hi'
+      rw [hi']
+      simp [freshRefs_succ, List.append_assoc]
+
+/-- the translated `copyBindingss`: one new map object per given map — the given maps' entries, the
+    given maps themselves and everything else on the heap untouched — and the result lists the new
+    objects only: no result shares a map with an argument -/
+theorem tr_copyBindingss (n K : Nat) (g : Env) (H : Heap) (objs : List (Nat × MapObj))
+    (hget : ∀ p ∈ objs, heapGet H p.1 = some p.2) (hK : ∀ p ∈ objs, p.2.kvs.length ≤ K) :
+    callFn (n + objs.length + K + 50) matchProg g "copyBindingss" .nil [.slice (objs.map (fun p => GV.ref p.1))] H =
+      .ok ([.slice (freshRefs H.length objs.length)], H ++ objs.map (fun p => copyObj p.2)) := by
+  obtain ⟨items, hitems, hsnd, hlen⟩ := rangeItems_slice_snd H (objs.map (fun p => GV.ref p.1))
+  have hl := cb_loop g (.slice (objs.map (fun p => GV.ref p.1))) objs items (n + 6) K H [] hsnd hget hK
+  simp only [List.length_map] at hlen
+  rw [show n + objs.length + K + 50 = (n + objs.length + K + 49) + 1 from rfl]
+  simp only [callFn, find_copyBindingss]
+  simp only [cb_shape]
+  have hp : matchProg_copyBindingss.params = ["bss"] ∧ matchProg_copyBindingss.recv = "" ∧
+      matchProg_copyBindingss.variadic = false := ⟨rfl, rfl, rfl⟩
+  simp [-callFn, hp.1, hp.2.1, hp.2.2, hitems]
+  rw [show n + objs.length + K + 46 = n + 6 + items.length + K + 40 by omega, hl]
+  simp
+
+
 end Sheens.TrMatch
